@@ -216,6 +216,9 @@ func (s *Share[E]) UnmarshalCBOR(data []byte) error {
 	if err != nil {
 		return errs.Wrap(err).WithMessage("failed to unmarshal ISN Share")
 	}
+	if dto == nil {
+		return sharing.ErrIsNil.WithMessage("Share DTO is nil")
+	}
 
 	ss, err := NewShare(dto.ID, dto.V)
 	if err != nil {
